@@ -59,7 +59,8 @@ def h_sustain(c):
   ccs = []
   for j in range(P):
     t = c.real('c%d_t' % j, 0)
-    num = c.int('c%d_n' % j, 63, 65)
+    num = c.int('c%d_n' % j, 63, 65) if c.params.get(
+        'sustain_number', 64) == 64 else c.int('c%d_n' % j, 64, 66)
     val = c.int('c%d_v' % j, 0, 127)
     ins = c.params['ci'][j]
     ns.control_changes.add(time=t, control_number=num, control_value=val,
@@ -70,12 +71,16 @@ def h_sustain(c):
     c.assume(n['e'] <= tt)
   ns.total_time = tt
   before = c.snapshot(ns)
-  out = sl.apply_sustain_control_changes(ns)
+  snum = c.params.get('sustain_number', 64)
+  if snum == 64:
+    out = sl.apply_sustain_control_changes(ns)
+  else:
+    out = sl.apply_sustain_control_changes(ns, sustain_control_number=snum)
   c.check(c.msg_eq(ns, before), 'input unchanged')
   c.check(len(out.notes) == N, 'no note removed or invented')
   # ---- declarative specification
   sus = [cc for cc in ccs]  # events that count: control number 64
-  is_sus = lambda cc: c.eq(cc['n'], 64)
+  is_sus = lambda cc: c.eq(cc['n'], snum)
   is_on = lambda cc: cc['v'] >= 64
   # last event time of the piece (non-drum note starts/ends, sustain events)
   times = []
@@ -183,6 +188,8 @@ def jobs(tier):
   for (n, p) in [(1, 1), (1, 2), (2, 1), (2, 2)]:
     grid(n, p, budget=400)
   grid(3, 1, budget=900)
+  # another controller number as the sustain pedal (e.g. sostenuto, 66)
+  add('h_sustain', N=1, P=2, ni=[0], ci=[0, 0], sustain_number=66, budget=400)
   if tier == 'thorough':
     grid(2, 3, budget=3000, required=False)
     grid(3, 2, budget=3000, required=False)
